@@ -169,6 +169,27 @@ def replay_match(col, case):
         fp = "mismatch-accepted" if exp == "ValueError" and isinstance(got, dict) else \
              "match-rejected" if got == "ValueError" else "parse-wrong-fields"
         col.violation(fp, dict(rep, expected=exp, observed=got))
+    if ph:
+        # the same placeholders given AFTER the object has already parsed a name (set_placeholders on a used FileSet):
+        # the custom regex / value list must be in force from then on
+        try:
+            fs2 = FileSet(tmpl)
+            try:
+                fs2.parse_filename(prefix + name)
+            except Exception:
+                pass
+            fs2.set_placeholders(**ph)
+            try:
+                got2 = fs2.parse_filename(prefix + name)
+            except ValueError:
+                got2 = "ValueError"
+        except Exception as ex:
+            got2 = "raised " + type(ex).__name__
+        col.count(1)
+        if got2 != exp:
+            fp = "mismatch-accepted" if exp == "ValueError" and isinstance(got2, dict) else \
+                 "match-rejected" if got2 == "ValueError" else "parse-wrong-fields"
+            col.violation(fp + "-placeholders-set-after-first-parse", dict(rep, expected=exp, observed=got2))
     if case["i"] != 0:
         col.nontrivial.add(("match", tmpl, name))
 
